@@ -1,5 +1,5 @@
 import Driver.Proto
-import GoMailModel.Smtp.Dial
+import GoMailModel.Smtp.Judge
 open GoMail GoMail.Proto GoMail.Smtp
 
 namespace SmtpOps
@@ -67,6 +67,44 @@ partial def parseMsgs : List String → Option (List MsgIn)
     | _, _, _, _, _, _ => none
   | _ => none
 
+def upperB (b : Bytes) : Bytes := b.map (fun c => if 97 ≤ c && c ≤ 122 then c - 32 else c)
+
+/-- the verb of a command line as the harness judge reads it (first word, case-insensitive) -/
+def verbOfLine (inAuth : Bool) (line : Bytes) : Verb :=
+  if line == [42] then .authAbort
+  else
+    let w := upperB ((splitOn 32 line).headD [])
+    if w == sb "EHLO" then .ehlo else if w == sb "HELO" then .helo else if w == sb "MAIL" then .mail
+    else if w == sb "RCPT" then .rcpt else if w == sb "DATA" then .data else if w == sb "RSET" then .rset
+    else if w == sb "NOOP" then .noop else if w == sb "QUIT" then .quit else if w == sb "STARTTLS" then .starttls
+    else if w == sb "AUTH" then .auth else if inAuth then .authStep else .other
+
+/-- one event of a recorded trace (harness vocabulary) -/
+def parseTraceEv (inAuth : Bool) (b : Bytes) : Option Ev × Bool :=
+  if b == sb "connect" then (some .connect, false)
+  else if hasPrefix b (sb "cmd ") then
+    let v := verbOfLine inAuth (b.drop 4)
+    (some (.cmd v (b.drop 4)), v == .auth || v == .authStep)
+  else if b == sb "eod" then (some .eod, false)
+  else if hasPrefix b (sb "reply ") then
+    ((decNat (String.mk ((35 :: b.drop 6).map (fun c => Char.ofNat c.toNat)))).map Ev.reply, inAuth)
+  else if b == sb "garbage" then (some .garbage, inAuth)
+  else if b == sb "drop" then (some .drop, inAuth)
+  else if b == sb "close" then (some .close, inAuth)
+  else if b == sb "deadline" then (some .deadline, inAuth)
+  else if b == sb "stall-armed" then (some (.stall true), inAuth)
+  else if b == sb "stall-unarmed" then (some (.stall false), inAuth)
+  else if b == sb "tls-on" then (some .tlsOn, inAuth)
+  else if b == sb "tls-fail" then (some .tlsFail, inAuth)
+  else (none, inAuth)
+
+def parseTrace : Bool → List Bytes → List Ev
+  | _, [] => []
+  | a, b :: rest =>
+    match parseTraceEv a b with
+    | (some e, a') => e :: parseTrace a' rest
+    | (none, a') => parseTrace a' rest
+
 /-- smtp dialsend <caps> <script> <helo> #noNoop #requestDSN <dsnReturn> <dsnNotify> #policy m ... -/
 def handle (toks : List String) : String :=
   match toks with
@@ -117,6 +155,11 @@ def handle (toks : List String) : String :=
         encList (c.trace.filterMap evBytes) ++ " dial=" ++ errTag e ++ " open=" ++ encBool c.cliOpen ++ " logs=" ++ encList logs ++ " reset=" ++ errTag re
       | _, _, _, _, _, _, _, _ => "bad-arg2"
     | _, _, _, _, _, _, _, _, _, _, _, _ => "bad-arg"
+  | ["judge", tr] =>
+    -- the reference automaton of C04 (Smtp/Judge.lean) on a recorded trace
+    match decList tr with
+    | some evs => "legal=" ++ encBool (!(judge (parseTrace false evs)).bad)
+    | none => "bad-arg"
   | _ => "bad-op"
 
 end SmtpOps
